@@ -7,6 +7,15 @@ fn main() {
         eprintln!("usage: verif <ID> [--tier quick|thorough] [--replay FILE] [--seed N]");
         std::process::exit(2);
     }
+    if args[1] == "--memcheck-selftest" {
+        // deliberately reads one byte past a heap block and one uninitialised byte: the memcheck
+        // leg runs this first and only trusts a silent valgrind if this one was reported
+        let v: Vec<u8> = vec![1u8; 24];
+        let p = v.as_ptr();
+        let beyond = unsafe { std::ptr::read_volatile(p.add(24 + 3)) };
+        println!("selftest read {beyond}");
+        return;
+    }
     let prop = args[1].clone();
     let mut tier = match std::env::var("VERIF_TIER").as_deref() {
         Ok("thorough") => Tier::Thorough,
@@ -65,6 +74,11 @@ fn main() {
         scratch: scratch.clone(),
         workers,
         verbose,
+        shard: std::env::var("VERIF_SHARD").ok().and_then(|s| {
+            let (k, n) = s.split_once('/')?;
+            Some((k.parse().ok()?, n.parse().ok()?))
+        }),
+        leg: std::env::var("VERIF_LEG").is_ok(),
     };
     tough_verif::run::install_panic_hook();
     let code = tough_verif::props::dispatch(&cfg);
